@@ -208,7 +208,24 @@ func withBiases(root M, bs []M) M {
 		r[k] = v
 	}
 	l := L{}
+	var known []string
+	for _, a := range asL(root["knownAlternatives"]) {
+		known = append(known, asS(asM(a)["id"]))
+	}
 	for _, b := range bs {
+		if asS(b["name"]) == "anchoring" && len(known) > 0 && !(contains(known, "a") && contains(known, "c")) {
+			// the alphabet names alternatives a and c; on roots with other ids use the first and the last known alternative
+			nb := asM(deepCopy(b))
+			aa := asL(asM(nb["props"])["anchoringAlternatives"])
+			for i, x := range aa {
+				if i == 0 {
+					asM(x)["alternative"] = known[0]
+				} else {
+					asM(x)["alternative"] = known[len(known)-1]
+				}
+			}
+			b = M(nb)
+		}
 		l = append(l, b)
 	}
 	r["biases"] = l
@@ -241,4 +258,72 @@ func negativeVariant(root M) M {
 		}
 	}
 	return M(r)
+}
+
+// genericRequest builds a request over arbitrary ids (criteria ids cids, alternatives with their value rows, considered list).
+func genericRequest(method string, cids []string, costIdx int, alts []string, vals [][]float64, chose []string, w []float64) M {
+	var crits L
+	for j, id := range cids {
+		t := "gain"
+		if j == costIdx && method != "choquetIntegral" && method != "owa" {
+			t = "cost"
+		}
+		crits = append(crits, crit(id, t))
+	}
+	var ka L
+	for i, id := range alts {
+		cv := map[string]float64{}
+		for j, c := range cids {
+			cv[c] = vals[i][j]
+		}
+		ka = append(ka, alt(id, cv))
+	}
+	wm := map[string]float64{}
+	for j, c := range cids {
+		wm[c] = w[j]
+	}
+	mp := methodParams(method, cids, wm, false)
+	if method == "choquetIntegral" {
+		// capacities normalised so that every subset stays within [0,1] for any number of criteria
+		total := 0.0
+		for _, x := range w {
+			total += x
+		}
+		caps := M{}
+		for _, sub := range subsetsOf(cids) {
+			t := 0.0
+			for _, c := range sub {
+				t += wm[c]
+			}
+			caps[joinComma(sub)] = t / total
+		}
+		mp = M{"weights": caps}
+	}
+	return M{"preferenceFunction": method, "knownAlternatives": ka, "choseToMake": strs(chose), "criteria": crits, "methodParameters": mp, "biasApplyRandomSeed": 1}
+}
+
+func joinComma(a []string) string {
+	s := ""
+	for i, x := range a {
+		if i > 0 {
+			s += ","
+		}
+		s += x
+	}
+	return s
+}
+
+// oddIdsRequest: identifiers that are valid but untidy — upper case (sorts before the generated "__..." ids), an id that
+// is a prefix of another, an id that itself starts with "__", ids with a space and non-ASCII letters; considered set
+// neither sorted nor an alphabetical prefix.
+func oddIdsRequest(method string) M {
+	return genericRequest(method, []string{"Quality", "c1", "c10", "__own"}, 1, []string{"α", "A b", "a", "ab"},
+		[][]float64{{1, 4, 2, 3}, {3, 1, 2.5, 1}, {2, 2, 0.5, 2}, {2.5, 3, 1, 0.5}}, []string{"a", "α", "A b"}, []float64{1, 2, 3, 1.5})
+}
+
+// bigRequest: five criteria, six alternatives, four of them considered.
+func bigRequest(method string) M {
+	return genericRequest(method, critIDs(5), 1, []string{"a", "b", "c", "d", "e", "f"},
+		[][]float64{{1, 4, 2, 3, 0.5}, {3, 1, 2.5, 1, 2}, {2, 2, 0.5, 2, 3}, {2.5, 3, 1, 0.5, 1}, {0.5, 2.5, 3, 2, 1.5}, {3, 3.5, 1.5, 1, 2.5}},
+		[]string{"f", "b", "d", "a"}, []float64{1, 2, 3, 1.5, 2.5})
 }
